@@ -770,18 +770,28 @@ Qed.
 
 (* ---------- wrapAny ---------- *)
 (* wrap_total would say: whenever the parser built node n without error and
-   accepts target (type of n), wrapAny n target does not panic.  It is still
-   FALSE on the current tree: commit 48eed77 taught wrapAny to look inside
-   groups, concatenations, repetitions and slices, but an index expression, a
-   field access, a call result, a type assertion (and a slice of one of them)
-   still carry the unfixed composite type parseType / Sub gave them.
-   Witness:  func f:[]num … ; a:[]any ; a = f   *)
+   accepts target (type of n), wrapAny n target does not panic.  After commits
+   48eed77, a303004, 3a7bc1f every non-literal result is Fixed and wrapAny looks
+   into groups, concatenations, repetitions and slices; what is left is the
+   concatenation whose LEFT operand has a nested untyped empty: its type is the
+   left operand's ([][]), accepts lets it through for any [][]T, and wrapAny
+   then tries to retype the right operand too.
+   Witness:  t:[][]string ; t = [[]]+[[1]]   *)
 Lemma wrap_total_refuted :
   exists e n target, tc e = ONode n false /\ accepts target (node_type n) = true /\ wrap_any n target = None.
 Proof.
-  exists (ECall (SArr SNum)), (NLeaf (TArr false TNum)), (TArr true TAny).
-  repeat split; reflexivity.
+  exists (EBin OpPlus (EArr [EArr []]) (EArr [EArr [ELitNum]])). eexists.
+  exists (TArr true (TArr false TString)).
+  split; [vm_compute; reflexivity|]. split; vm_compute; reflexivity.
 Qed.
+
+(* regression: the witnesses of the earlier rounds no longer crash *)
+Lemma wrap_former_witnesses_ok :
+  check (CAssign (SArr SAny)) (ECall (SArr SNum)) = Reject /\
+  check (CAssign (SArr SAny)) (EIndex (EVar (SArr (SArr SNum))) ELitNum) = Reject /\
+  check CDecl (ESlice (EArr []) None None) = Accept (TArr true TAny) (TArr true TAny) /\
+  check CDecl (EBin OpPlus (EMap []) ELitNum) = Reject.
+Proof. vm_compute. repeat split; reflexivity. Qed.
 
 (* what IS total: values whose type is rigid (basic types, any, variables and
    everything Fixed) are never converted, only wrapped in Any or passed through *)
@@ -816,4 +826,62 @@ Proof.
     subst; simpl in *;
     try (apply accepts_from_fixed_equals in Ha; auto; congruence);
     try congruence.
+Qed.
+
+(* every expression form that is not a composite literal, group, binary
+   expression or slice yields a node of rigid type on the current tree
+   (a303004): wrap_total_rigid applies to all of them *)
+Definition annot_closed (e : expr) : bool :=
+  match e with EVar t | ECall t | EAssert _ t => closed t | _ => true end.
+
+Lemma infer_no_empty : forall t t', infer t = Some t' -> has_empty t' = false /\ has_generic t' = false.
+Proof.
+  induction t; intros t' H; simpl in H; try (inversion H; subst; split; reflexivity); try discriminate.
+  - destruct (infer t) eqn:E; [|discriminate]. inversion H; subst. simpl. apply IHt; reflexivity.
+  - destruct (infer t) eqn:E; [|discriminate]. inversion H; subst. simpl. apply IHt; reflexivity.
+Qed.
+
+Lemma rigid_fixed_type t : has_empty t = false -> has_generic t = false ->
+  rigid (fixed_type t) = true /\ has_empty (fixed_type t) = false.
+Proof. destruct t; simpl; intros; try discriminate; auto. Qed.
+
+Lemma embed_no_generic s : has_generic (embed s) = false.
+Proof. induction s; simpl; auto. Qed.
+
+Theorem tc_leaf_rigid e t err :
+  annot_closed e = true -> tc e = ONode (NLeaf t) err -> rigid t = true /\ has_empty t = false.
+Proof.
+  intros Hc H. destruct e; simpl in *.
+  - inversion H; subst; auto.
+  - inversion H; subst; auto.
+  - inversion H; subst; auto.
+  - inversion H; subst. apply rigid_fixed_type; [apply closed_embed_iff; exact Hc | apply embed_no_generic].
+  - inversion H; subst. apply rigid_fixed_type; [apply closed_embed_iff; exact Hc | apply embed_no_generic].
+  - destruct (seq_outcomes (map tc els)) as [[[ns er]|]|]; try discriminate.
+    destruct ns; [discriminate|]. destruct (combine _); [|discriminate]. destruct (wrap_all _ _); discriminate.
+  - destruct (seq_outcomes (map tc els)) as [[[ns er]|]|]; try discriminate.
+    destruct ns; [discriminate|]. destruct (combine _); [|discriminate]. destruct (wrap_all _ _); discriminate.
+  - destruct (tc e1); simpl in H; try discriminate. destruct (tc e2); simpl in H; try discriminate.
+    destruct (validate_binary _ _ _); discriminate.
+  - destruct (tc e); simpl in H; try discriminate.
+    destruct (validate_unary op (node_type n)) eqn:V; [|discriminate]. inversion H; subst.
+    destruct op, (node_type n); simpl in V; try discriminate; auto.
+  - destruct (tc e); simpl in H; discriminate.
+  - destruct (tc e1); simpl in H; try discriminate.
+    destruct (negb _); [discriminate|]. destruct (tc e2); simpl in H; try discriminate.
+    destruct (index_type _ _); [|destruct (is_generic _); discriminate].
+    destruct (infer t0) eqn:I; [|discriminate]. inversion H; subst.
+    apply infer_no_empty in I as [I1 I2]. apply rigid_fixed_type; assumption.
+  - destruct (tc e); simpl in H; try discriminate.
+    destruct (negb _); [discriminate|].
+    destruct s as [s|]; [destruct (tc s)|]; try discriminate;
+      (destruct (negb _); [discriminate|]);
+      (destruct e0 as [e0|]; [destruct (tc e0)|]; try discriminate);
+      destruct (slice_type _ _ _); discriminate.
+  - destruct (tc e); simpl in H; try discriminate.
+    destruct (dot_type _); [|destruct (is_generic _); discriminate].
+    destruct (infer t0) eqn:I; [|discriminate]. inversion H; subst.
+    apply infer_no_empty in I as [I1 I2]. apply rigid_fixed_type; assumption.
+  - destruct (tc e); simpl in H; try discriminate. inversion H; subst.
+    apply rigid_fixed_type; [apply closed_embed_iff; exact Hc | apply embed_no_generic].
 Qed.
